@@ -133,7 +133,7 @@ Definition instr (op arg : N) (m : mstate) : ires :=
       | None => ICall name args s
       end end end)
   else if op =? OpIterationReset then
-    let e1 := env_push (menv m) in
+    let e1 := env_push (menv m) (lenN (stk m)) in
     match stk m with
     | [] => IFin (OErr EInternal) (set_env m e1)
     | v :: s =>
@@ -142,7 +142,10 @@ Definition instr (op arg : N) (m : mstate) : ires :=
     end
   else if op =? OpIterationNext then
     match stk m with
-    | vn :: idn :: it :: s =>
+    | vn :: idn :: rest =>
+      match drop_residue (menv m) rest with
+      | [] => IFin (OErr EInternal) m
+      | it :: s =>
         match it with
         | VIter v off =>
             match name_of o vn, name_of o idn, iter_next o v off with
@@ -161,6 +164,7 @@ Definition instr (op arg : N) (m : mstate) : ires :=
             end
         | _ => if iterable it then IFin (OErr ENeedOracle) m else IFin (OErr EScript) m
         end
+      end
     | _ => IFin (OErr EInternal) m
     end
   else if op =? OpRange then pop2 (fun b a s => on (vm_range a b) s)
